@@ -122,9 +122,11 @@ class RenderContext:
         """Resolve the variable _path_ in the current namespace."""
         it = iter(path)
         root = next(it)
-        assert isinstance(root, str)
 
         try:
+            if not isinstance(root, str):
+                # A nested path that did not resolve to a variable name.
+                raise KeyError(root)
             obj = self.scope[root]
         except (KeyError, TypeError, IndexError):
             if default == UNDEFINED:
@@ -158,9 +160,11 @@ class RenderContext:
         """Asynchronously resolve the variable _path_ in the current namespace."""
         it = iter(path)
         root = next(it)
-        assert isinstance(root, str)
 
         try:
+            if not isinstance(root, str):
+                # A nested path that did not resolve to a variable name.
+                raise KeyError(root)
             obj = self.scope[root]
         except (KeyError, TypeError, IndexError):
             if default == UNDEFINED:
